@@ -195,6 +195,10 @@ def run_C16(w):
     # literals, trailing blanks, blank lines before the first statement (seeded change C16-r3)
     progs += ["s = '''usage:\n    \n  tool\n\t\nend'''\n", "def f():\n    '''doc\n    \n      indented\n    '''\n    return 1\n",
               "\n\nx = 1   \n\n\ny = '  '\nz = '''\n \n'''\n", "class C:\n    ''' \n\t\n '''\n    a = '''\n        \n'''\n"]
+    # programs whose text contains a backslash followed by `n` (an escape inside a string literal, a raw string, a
+    # doubled backslash): only -c may turn that pair into a newline (seeded change C16-r5)
+    progs += ['greeting = "hello\\nworld"\n', "pat = r'a\\nb'\nq = 'tab\\there'\n", 'def f():\n    """line one\\nline two"""\n    return "x\\\\ny"\n',
+              "s = b'\\n' + b'\\\\n'\n"]
     for _, s in corpus.generated_sources(w.seed, 6 if w.tier != 'thorough' else 60):
         if len(s) < 3000 and '\\' not in s:
             progs.append(s)
